@@ -486,7 +486,7 @@ func runC20(c *ev.ChildEnv, res *ev.Result) {
 	g := newMgen(uint64(c.Seed), uint64(c.Batch)+2000)
 	c.WAL("raw-runtime cases")
 	c20Raw(c, res, plugins, newMgen(uint64(c.Seed), uint64(c.Batch)+2100), tierN(c.Tier, 40, 1000))
-	n := tierN(c.Tier, 1200, 40000) / c.Batches
+	n := tierN(c.Tier, 1200, 240000) / c.Batches
 	for i := 0; i < n; i++ {
 		cs := g.genC20(fmt.Sprintf("b%dn%d", c.Batch, i))
 		if i%50 == 0 {
